@@ -270,7 +270,10 @@ fn run_factory(cx: &CaseCtx, rep: &mut Report, rng: &mut Rng, n: usize, csv_mode
 			let seed = *rng.pick(&valid);
 			let t = if i % 6 == 0 {
 				// argument-level corruption: numbers, arity, names
-				seed.replace("min=1", *rng.pick(&["min=-1", "min=999", "min=1e3", "min=", "min=[1,2]"]))
+				seed.replace("min=1", *rng.pick(&["min=-1", "min=999", "min=1e3", "min=", "min=[1,2]", "min=31", "min=32", "min=33", "min=64", "min=200", "min=255", "min=256"]))
+					.replace("max=5", *rng.pick(&["max=5", "max=0", "max=30", "max=31", "max=32", "max=33", "max=100", "max=255", "max=256", "max=-0"]))
+					.replace("min=2", *rng.pick(&["min=2", "min=31", "min=32", "min=40", "min=255"]))
+					.replace("max=3", *rng.pick(&["max=3", "max=31", "max=32", "max=99", "max=255"]))
 					.replace("bbox=[-10,-20,30,40]", *rng.pick(&["bbox=[1,2,3]", "bbox=[NaN,0,1,1]", "bbox=[10,0,5,1]", "bbox=[-200,-100,200,100]", "bbox=[0,0,0,0]", "bbox=[1e400,0,1,1]", "bbox=\"x\""]))
 					.replace("format=pbf", *rng.pick(&["format=gif", "format=", "format=[pbf,png]", "format=\"\\q\""]))
 					.replace("layer_name=roads", *rng.pick(&["layer_name=[a,b]", "", "layer_name=\"ünï\""]))
